@@ -64,6 +64,56 @@ def check_effects(rnd):
     return None
 
 
+def check_similarity(rnd):
+    """between-sample similarity matrix: a table-driven posterior sample (prediction = table[sample id][unordered treatment ids]) on screens whose
+    sample / treatment mappings are supplied in a non-positional (but dense, valid) order and list conditions absent from the data"""
+    from batchie.core import Theta, ThetaHolder
+    from batchie.data import Screen
+    from batchie.models.main import generate_full_combinatoric_space
+    ar = rnd.choice([2, 2, 3]); ns = rnd.randrange(2, 5); nt = rnd.randrange(ar + 1, 6)
+    s_names = ["s%d" % i for i in range(ns)]; s_ids = list(range(ns)); rnd.shuffle(s_ids)
+    t_names = ["d%d" % (i // 2) for i in range(nt)]; t_doses = [float(1 + i % 2) for i in range(nt)]; t_ids = list(range(nt)); rnd.shuffle(t_ids)
+    if rnd.random() < 0.3: s_ids = list(range(ns)); t_ids = list(range(nt))
+    n = rnd.randrange(2, 8)
+    rows_s = [rnd.randrange(ns) for _ in range(n)]; rows_s[0], rows_s[1] = 0, 1
+    rows_t = [[rnd.randrange(nt) for _ in range(ar)] for _ in range(n)]
+    scr = Screen(sample_names=np.array([s_names[i] for i in rows_s]), plate_names=np.array(["p"] * n),
+                 treatment_names=np.array([[t_names[j] for j in r] for r in rows_t]), treatment_doses=np.array([[t_doses[j] for j in r] for r in rows_t]),
+                 sample_mapping=(np.array(s_names), np.array(s_ids)), treatment_mapping=(np.array(t_names), np.array(t_doses), np.array(t_ids)))
+
+    class Tab(Theta):
+        def __init__(self, seed): self.r = random.Random(seed); self.t = {}
+        def predict_viability(self, data):
+            return np.array([self.t.setdefault((int(c), tuple(sorted(int(x) for x in tr))), self.r.random()) for c, tr in zip(data.sample_ids, data.treatment_ids)])
+        predict_conditional_mean = predict_viability
+        def predict_conditional_variance(self, data): return np.ones(data.size)
+        def private_parameters_dict(self): return {}
+        def shared_parameters_dict(self): return {}
+        @classmethod
+        def from_dicts(cls, a, b): return cls(0)
+    h = ThetaHolder(2); ths = [Tab(rnd.random()), Tab(rnd.random())]
+    for t in ths: h.add_theta(t)
+    want_rows = sorted(tuple(sorted(c)) for c in itertools.combinations(t_ids, ar))
+    for sid in sorted(set(int(x) for x in scr.sample_ids)):
+        sp = generate_full_combinatoric_space(sid, scr)
+        if not np.all(sp.sample_ids == sid): return "full combinatoric space of sample id %d carries sample ids %r" % (sid, sorted(set(sp.sample_ids.tolist())))
+        if sorted(tuple(sorted(int(x) for x in r)) for r in sp.treatment_ids) != want_rows: return "full combinatoric space is not every unordered combination of the screen's treatment ids"
+        nm = {i: m for m, i in zip(s_names, s_ids)}[sid]
+        if not np.all(sp.sample_names == nm): return "full combinatoric space of sample id %d is labelled %r, the screen calls that sample %r" % (sid, sorted(set(sp.sample_names.tolist())), nm)
+    df = correlation_matrix(scr, h)
+    uid = [int(x) for x in scr.unique_sample_ids]
+    P = np.array([[np.mean([t.t[(sid, c)] for t in ths]) for c in want_rows] for sid in uid])
+    if len({tuple(r) for r in P.tolist()}) < len(uid): return None
+    X = P - P.mean(axis=0, keepdims=True); X = X / np.sqrt((X ** 2).sum(axis=1, keepdims=True)); ref = X @ X.T
+    got = df.values
+    if got.shape != ref.shape or not np.allclose(got, got.T, **TOL) or not np.allclose(np.diag(got), 1.0, rtol=1e-9): return "similarity matrix is not symmetric with unit diagonal"
+    order = {tuple(sorted(c)): k for k, c in enumerate(want_rows)}
+    if not np.allclose(got, ref, rtol=1e-8, atol=1e-10): return "similarity matrix is not the correlation of the samples' average predictions over the full combination space (own ids)"
+    id2name = {i: m for m, i in zip(s_names, s_ids)}
+    if list(df.index) != [id2name[i] for i in uid] or list(df.columns) != list(df.index): return "similarity matrix rows are not labelled with the samples' names"
+    return None
+
+
 def main():
     ap = argparse.ArgumentParser()
     ap.add_argument("--tier", default="quick"); ap.add_argument("--seed", type=int, default=0)
@@ -73,13 +123,13 @@ def main():
     viol = []
     for k in range(N):
         rnd = random.Random(a.seed * 1000003 + k)
-        for nm, f in (("ModelEvaluation", check_eval), ("effects/synergy", check_effects)):
+        for nm, f in (("ModelEvaluation", check_eval), ("effects/synergy", check_effects), ("similarity matrix", check_similarity)):
             try: r = f(rnd)
             except Exception as e: r = "raised %r" % (e,)
             if r and not any(v["site"] == nm for v in viol): viol.append({"seed": a.seed * 1000003 + k, "what": r + " differs from its definition", "site": nm})
     print(json.dumps({"violations": viol, "bounded": [{"function": "ModelEvaluation metrics + reload, single-agent effect map/array (arity 2,3), Bliss synergy (strict and lenient)",
-        "bound": "%d random cases: <=5 experiments x <=6 samples, chain labellings incl. non-contiguous; <=9 rows of ids in {-1,0,1,2}" % N, "evaluations": 2 * N, "distinct_nontrivial": 2 * N,
-        "label": "bounded stand-in, not counted as proved; decides inter-chain variance, effects, synergy (correlation_matrix not exercised)"}]}))
+        "bound": "%d random cases: <=5 experiments x <=6 samples, chain labellings incl. non-contiguous; <=9 rows of ids in {-1,0,1,2}" % N, "evaluations": 3 * N, "distinct_nontrivial": 3 * N,
+        "label": "bounded stand-in, not counted as proved; decides inter-chain variance, effects, synergy, similarity matrix (table-driven samples, permuted supplied mappings, arity 2-3)"}]}))
 
 
 main()
